@@ -2559,7 +2559,7 @@ class nx_match (object):
     """
     self._parts = list(parts)
     self._dirty()
-    for k,v in kw:
+    for k,v in kw.items():
       setattr(self, k, v)
     self._locked = True
 
